@@ -742,13 +742,13 @@ func (s *ResettableKeystore) ResetCids(ctx context.Context, keysChan <-chan cid.
 	case <-s.done:
 		return ErrClosed
 	case s.resetOps <- resetOp{ctx: ctx, op: opStart, response: opsChan}:
-		select {
-		case err := <-opsChan:
-			if err != nil {
-				return err
-			}
-		case <-ctx.Done():
-			return ctx.Err()
+		// Always wait for the worker's answer, even if ctx is done meanwhile:
+		// the worker sends it on an unbuffered channel and would otherwise
+		// block forever, and once opStart succeeded the deferred opCleanup
+		// below must run to leave the reset state. A cancelled ctx is noticed
+		// by the loop right after.
+		if err := <-opsChan; err != nil {
+			return err
 		}
 	}
 
